@@ -172,6 +172,8 @@ def st_case(draw, tier):
         inputs["o"]["child"] = None
     if draw(st.booleans()):
         inputs["t"] = []
+    if draw(st.booleans()):
+        inputs["q"] = 0
     return {"text": text, "params": GR.free_params(text), "features": feats, "role": role,
             "async": role != "invariant" and draw(st.integers(0, 3)) == 0, "inputs": inputs,
             "layout": draw(LY.st_layout(role)), "error": draw(st.sampled_from(["default", "default", "class", "instance"]))}
@@ -194,7 +196,7 @@ def directed(ctx, only=None):
     base = {"x": 2, "n": 3, "s": "ab", "xs": [1, 5, 2], "ys": [4], "ss": [1, 2], "d": {"ab": 1}, "t": [3, 4],
             "o": {"n": 1, "items": [2], "child": {"n": 0, "items": [], "child": None}}, "m": [[1, 2], [3, 4]], "id": 3,
             "Y": -1000, "G": 5}
-    sides = [{}, {"xs": [], "n": 0, "t": [], "d": {}, "o": {"n": 1, "items": [], "child": None}, "x": 0}]
+    sides = [{"q": 3}, {"xs": [], "n": 0, "t": [], "d": {}, "o": {"n": 1, "items": [], "child": None}, "x": 0, "q": 0}]
     extra = [("all(y > 1 for y in xs if y != 5 if 10 // (y - 5) < 100)", {"xs": [7, 5, 0]}),
              ("add(*xs) > 1000", {})]
     i = 0
